@@ -9,7 +9,7 @@
 (* ever rejected when a swap arm of the compaction fired, i.e. the stale   *)
 (* carried indices are the only cause within the bound.                    *)
 (***************************************************************************)
-EXTENDS Pipeline, Udiff, Patch, TLC
+EXTENDS Pipeline, Udiff, Patch, TLC, Json
 
 CONSTANTS MaxLines, MaxRadius
 VARIABLES old, new, radius, header, rendered, swapped
@@ -36,4 +36,7 @@ Spec == Init /\ [][Next]_vars
 Ok == rendered # <<-1>> => \E fo \in {FlattenSeq(old)}, fn \in {FlattenSeq(new)} : Accepts(rendered, fo, fn, radius, header)
 AlwaysAccepted == Ok                      \* holds with SwapRepair = TRUE
 AcceptedOrSwapped == Ok \/ swapped        \* holds with SwapRepair = FALSE
+DumpInv == rendered # <<-1>> =>
+   PrintT(<<"REPLAY", ToJson([kind |-> "udiff", old |-> old, new |-> new, radius |-> radius, header |-> header,
+                              expected |-> rendered])>>)
 =============================================================================
